@@ -21,6 +21,7 @@ typedef struct unit {
     volatile int started, finished, exited, want_resume, resumed_cnt, mig_cb, mig_target, cancel_me, joined, has_cb, counted_out, in_run;
     int home, moves, life; /* home: pool it was created in; moves: it has a migrate step; life: 0 first, 1 revived */
     struct unit *fwd;      /* the descriptor was revived as that unit (the migration callback keeps the first argument) */
+    int last_mig_tgt, force_tgt; /* pool of the last completed migration (+1, 0 = none); a revived unit asks for it again */
     long arg_seen;
 } unit;
 static unit U[MAXU];
@@ -185,6 +186,18 @@ static int revive_unit(int old)
     u->life = 1;
     u->has_cb = o->has_cb;
     gen_steps(u);
+    if (o->kind == AK_ULT && o->last_mig_tgt && sc_rnd(2)) {
+        /* the descriptor once migrated to pool B: start the second life elsewhere and ask for B again (a migration
+         * target remembered from the first life must not be mistaken for a pending request) */
+        int b = o->last_mig_tgt - 1;
+        if (u->pool == b)
+            u->pool = u->home = (b + 1) % sc_nes;
+        if (u->pool != b && u->pool != shared_pool) {
+            u->steps[0] = OP_MIGRATE;
+            u->moves = 1;
+            u->force_tgt = b + 1;
+        }
+    }
     u->th = o->th;
     o->th = ABT_THREAD_NULL;
     o->fwd = u;
@@ -325,6 +338,10 @@ static void unit_fn(void *arg)
                 ABT_bool mig = ABT_FALSE;
                 ABT_OK(ABT_thread_is_migratable(self, &mig));
                 int tgt = topo ? 0 : (u->pool + 1 + sc_rnd(sc_nes - 1)) % sc_nes; /* early stream join: only to the primary's pool */
+                if (u->force_tgt) {
+                    tgt = u->force_tgt - 1;
+                    u->force_tgt = 0;
+                }
                 ABT_pool cur;
                 ABT_OK(ABT_thread_get_last_pool(self, &cur));
                 int rc = ABT_thread_migrate_to_pool(self, sc_pool[tgt]);
@@ -378,6 +395,7 @@ static void unit_fn(void *arg)
                     VSA_CHECK(cur == sc_pool[tgt], "U%d runs again after a migration request but not from the target pool", u->id);
                     VSA_CHECK(u->mig_cb == cb0 + (u->has_cb ? 1 : 0), "migration callback of U%d ran %d times for one migration", u->id, u->mig_cb - cb0);
                     u->pool = tgt;
+                    u->last_mig_tgt = tgt + 1;
                 }
                 break;
             }
